@@ -1,0 +1,28 @@
+package buffer
+
+import (
+	"net/http"
+	"strings"
+)
+
+// takeAnnouncedTrailers removes from h, and returns, the values of the keys announced in its Trailer field.
+func takeAnnouncedTrailers(h http.Header) map[string][]string {
+	var taken map[string][]string
+	for _, list := range h["Trailer"] {
+		for _, k := range strings.Split(list, ",") {
+			k = http.CanonicalHeaderKey(strings.TrimSpace(k))
+			switch k {
+			case "", "Trailer", "Content-Length", "Transfer-Encoding":
+				continue
+			}
+			if v, ok := h[k]; ok {
+				if taken == nil {
+					taken = map[string][]string{}
+				}
+				taken[k] = v
+				delete(h, k)
+			}
+		}
+	}
+	return taken
+}
